@@ -234,14 +234,41 @@ def _with_locals(scale):
     return pre + [scale]
 
 
+def find_scale(repo, func):
+    """the statement of `func` that brings the assigned value to the
+    destination's scale: the if / elif that multiplies or divides by
+    FIXED_BASE, or an assignment `value = <...>.helper(...)` whose helper
+    (a method of the expression classes) does that"""
+    ifs = [s for s in walk_no_nested(func) if isinstance(s, ast.If)
+           and "fixed" in unparse(s.test) and "FIXED_BASE" in unparse(s)]
+    ifs = [s for s in ifs if not any(s in o.orelse for o in ifs)]
+    if len(ifs) == 1:
+        return ifs[0]
+    if ifs:
+        return None
+    cands = []
+    for st in walk_no_nested(func):
+        if not (isinstance(st, ast.Assign) and len(st.targets) == 1
+                and isinstance(st.targets[0], ast.Name)
+                and st.targets[0].id == "value"):
+            continue
+        for c in ast.walk(st.value):
+            if isinstance(c, ast.Call) and isinstance(c.func, ast.Attribute):
+                for ci in repo.subclasses(E + "Expression"):
+                    h = ci.methods.get(c.func.attr)
+                    if isinstance(h, FUNC) and "FIXED_BASE" in unparse(h):
+                        cands.append(st)
+                        break
+    cands = list(dict.fromkeys(cands))
+    return cands[0] if len(cands) == 1 else None
+
+
 def stores(chk, repo, d):
     ev = d.ev
     # Memory._set: the scale adjustment statement
     st = repo.func(E + "Memory._set")
-    ifs = [s for s in walk_no_nested(st) if isinstance(s, ast.If)
-           and "fixed" in unparse(s.test) and "FIXED_BASE" in unparse(s)]
-    ifs = [s for s in ifs if not any(s in o.orelse for o in ifs)]
-    need(len(ifs) == 1, "Memory._set: scale adjustment not found")
+    ifs = [find_scale(repo, st)]
+    need(ifs[0] is not None, "Memory._set: scale adjustment not found")
     mc = repo.cls(E + "Memory")
     fails = []
     for fmt in ("x", "q", "I", "i", "Q", "<q"):
@@ -264,11 +291,9 @@ def stores(chk, repo, d):
            "other format an integer")
     # RegisterArray.__setitem__
     si = repo.func(E + "RegisterArray.__setitem__")
-    ifs = [s for s in walk_no_nested(si) if isinstance(s, ast.If)
-           and "fixed" in unparse(s.test) and "FIXED_BASE" in unparse(s)]
-    ifs = [s for s in ifs if not any(s in o.orelse for o in ifs)]
-    need(len(ifs) == 1, "RegisterArray.__setitem__: scale adjustment not "
-                        "found")
+    ifs = [find_scale(repo, si)]
+    need(ifs[0] is not None, "RegisterArray.__setitem__: scale adjustment "
+                             "not found")
     ra = repo.cls(E + "RegisterArray")
     fails = []
     for rf in (False, True):
@@ -301,9 +326,7 @@ def stores(chk, repo, d):
              lambda f: Obj(ra, {"fixed": f, "ebpf": d.ebpf, "long": True,
                                 "signed": True}),
              ((True, 1), (False, 0)))):
-        scale = [s for s in walk_no_nested(func) if isinstance(s, ast.If)
-                 and "fixed" in unparse(s.test) and "FIXED_BASE" in unparse(s)]
-        scale = [s for s in scale if not any(s in o.orelse for o in scale)][0]
+        scale = find_scale(repo, func)
         holder = scale._parent
         lst = next(getattr(holder, fld) for fld in ("body", "orelse",
                                                     "finalbody")
@@ -480,6 +503,52 @@ def rounding(chk, repo, d):
            "round(v*100000)")
 
 
+def hash_writes(chk, repo, rule):
+    """HashGlobalVarDesc.__set__ on a loaded program, by abstract
+    execution: a Python number assigned to an x variable reaches the kernel
+    as the nearest per-100000 integer (q), other formats as the integer
+    itself in q / Q; the key is the variable's number"""
+    import struct as _struct
+    sym = "ebpfcat.hashmap.HashGlobalVarDesc.__set__"
+    f = repo.func(sym)
+    chk.analysed(sym)
+    dci = repo.cls("ebpfcat.hashmap.HashGlobalVarDesc")
+    bad = []
+    rows = [("x", v) for v in DECIMALS + [2.3, -17.9, 7, -7, 0, 41.5]] + [
+        ("I", 70000), ("i", -3), ("q", -5), ("Q", (1 << 63) + 9), ("B", 200)]
+    for fmt, v in rows:
+        sent = []
+
+        def update(fd, key, value, *a, _s=sent):
+            _s.append((fd, bytes(key), bytes(value)))
+        me = Obj(dci, {"fmt": fmt, "name": "v", "count": 7})
+        inst = Obj(None, {"loaded": True, "v": Obj(None, {"fd": 5})})
+        try:
+            Evaluator(repo, dci.module, dci, funcs={
+                "update_elem": ("hook", update)}).call_function(
+                f, [me, inst, v], cls=dci)
+        except Unknown as e:
+            raise AnalysisError(f"{sym}: cannot be evaluated: {e}")
+        except Raised as e:
+            bad.append(f"{fmt!r} = {v!r}: raises {e.what[:40]}")
+            continue
+        raw = round(v * 100000) if fmt == "x" else v
+        want = [(5, b"\x07", _struct.pack(
+            "q" if fmt.islower() else "Q", raw))]
+        if sent != want:
+            got = _struct.unpack("q", sent[0][2])[0] if sent and len(
+                sent[0][2]) == 8 else sent
+            bad.append(f"{fmt!r} = {v!r}: the kernel gets {got!r}, "
+                       f"expected {raw}")
+    chk.ob(rule, sym, f"a Python number assigned to a hash map variable "
+           f"reaches the kernel exactly: x as the nearest per-100000 "
+           f"integer ({len(rows)} rows by abstract execution)", not bad, f,
+           "; ".join(bad[:3]) + (": a decimal without an exact binary "
+                                 "representation ends up one unit below"
+                                 if bad else "") or "round(value * "
+           "FIXED_BASE)")
+
+
 def hash_reads(chk, repo, rule):
     """HashGlobalVarDesc.__get__ on a loaded program, by abstract
     execution: the cell the kernel hands back (8 bytes) is read as the raw
@@ -556,6 +625,7 @@ def reads(chk, repo, d):
     chk.ob("R02.3", sym, "x is written as an 8-byte q", ok, f,
            "struct reads 'x' as a pad byte; the raw value is a q")
     hash_reads(chk, repo, "R02.3")
+    hash_writes(chk, repo, "R02.2")
 
 # added rules (appended to the explanation the evidence file carries)
 EXPLANATION += (" " + "Added during the build (DESIGN.md 4.31, second table): unary minus / abs keep the operand's scale (every operand kind, constants included); who-may-decode rule for map bytes (R02.3); HashGlobalVarDesc.__get__ by abstract execution on 11 cells; conversion sites are looked for in every function of the package.")
